@@ -129,6 +129,7 @@ def run(ck):
     c15.remainder_exemption(ck, prog)
     c15.agreement(ck, prog)
     c15.remainder_sent(ck, prog)
+    c15.foldable_rule(ck, prog)
     cols_rule(ck, prog)
     from . import width
     width.run(ck, prog)   # a proof of an ordinary legal configuration survives serialization: no length prefix truncates
